@@ -26,19 +26,7 @@ def fatal_map(v, txt, where):
         v.fail("runtime-fatal:concurrent-map", {"what": m.group(0), "where": where, "stack": txt[i:i + 2500]})
     return bool(m)
 
-def library_panic(v, txt, where):
-    """A panic raised inside the library (first frame of the panicking goroutine that is not the runtime's lies in the package's own
-    sources, not in a driver file zz_verif_*) while it is used concurrently is the violation itself; a panic of the driver is not."""
-    m = re.search(r"^panic: [^\n]*", txt, re.M)
-    if not m:
-        return False
-    tail = txt[m.start():]
-    frames = re.findall(r"^\t(/\S+\.go):\d+", tail, re.M)
-    own = [f for f in frames if "/runtime/" not in f and "/testing/" not in f and "/src/sync/" not in f]
-    if own and "zz_verif" not in own[0] and own[0].startswith(os.path.realpath(vlib.REPO)):
-        v.fail("runtime-panic:" + os.path.basename(own[0]), {"what": m.group(0), "where": where, "stack": tail[:2500]})
-        return True
-    return False
+from checks.v1common import library_panic
 
 
 def run():
@@ -49,6 +37,11 @@ def run():
     if nv.violated != "NoRace":
         raise vlib.Inconclusive("check-outside-lock variant did not violate NoRace: " + nv.tail[-1500:])
     acc.tlc.append({"cfg": "V1ClassifierAsBuilt.cfg", "expected_violation": "NoRace"})
+    # unbounded companion (TLAPS): the repaired protocol for ANY sets of callers and values -- NoRace, SetWhenUsed, LazyOnce
+    proved, nobl, tail = vlib.tlaps("V1ClassifierProof", timeout=600)
+    if not proved:
+        raise vlib.Inconclusive("tlapm did not prove V1ClassifierProof: " + tail[-1500:])
+    acc.tlc.append({"cfg": "V1ClassifierProof.tla (tlapm)", "obligations_proved": nobl})
     env = {"VERIF_ROUNDS": "150" if th else "25", "VERIF_CALLERS": "8" if th else "4", "VERIF_SEED": str(vlib.SEED)}
     for race in (False, True):
         out = os.path.join(sub("out"), "conc.%s.ndjson" % race)
@@ -64,15 +57,19 @@ def run():
                 m = re.search(r"WARNING: DATA RACE\n(.*?)\n\n", txt, re.S)
                 v.fail("race-detector", {"reports": n, "first": (m.group(1) if m else txt)[:2500]})
             elif rc != 0 and not fatal_map(v, txt, "stringclassifier (race build)") and not library_panic(v, txt, "stringclassifier (race build)"):
-                raise vlib.Inconclusive("driver under -race failed:\n" + txt[-3000:])
+                hung = [x for x in read_ndjson(out) if x.get("ev") == "hang"]
+                if not hung:
+                    raise vlib.Inconclusive("driver under -race failed:\n" + txt[-3000:])
+                v.fail("hang", hung[0])
             continue
         if fatal_map(v, txt, "stringclassifier"):
             continue
         if library_panic(v, txt, "stringclassifier"):
             continue
-        if rc != 0:
-            raise vlib.Inconclusive("concurrent driver failed:\n" + txt[-3000:])
         recs = read_ndjson(out)
+        hung = [x for x in recs if x.get("ev") == "hang"]
+        if rc != 0 and not hung:
+            raise vlib.Inconclusive("concurrent driver failed:\n" + txt[-3000:])
         for x in recs:
             if x.get("ev") == "addfail":
                 v.fail("addvalue-error", x)
